@@ -115,3 +115,12 @@ Proof.
   - assert (a = x) by lia. subst. rewrite remove_z_notin; auto. lia.
   - destruct H0; [lia|]. specialize (IHl H4 H0). lia.
 Qed.
+
+Lemma NoDup_snoc : forall A (l : list A) x, NoDup l -> ~ In x l -> NoDup (l ++ [x]).
+Proof.
+  induction l; simpl; intros.
+  - constructor; [auto | constructor].
+  - inversion H; subst. constructor.
+    + rewrite in_app_iff. simpl. intros [H1 | [H1 | []]]; [contradiction | subst; tauto].
+    + apply IHl; auto.
+Qed.
